@@ -363,6 +363,7 @@ def run(rep: Report, tier: str) -> None:
     for f_, why_, line_ in _gx.memo_findings(P):
         rep.add(Finding("R16.6", f"R16.6/memo/{f_.qualname}", f_.module.rel, line_, f_.qualname,
                         f"{f_.name} is memoised and {why_}: what one call (one run, one parse, one thread) does to the cached value is seen by every later call in the process"))
+    _gx.report_shared_instances(P, rep, "R16.6", None, "the next API call starts from that state")
     rep.floor("R16.6 memoised functions", nmemo, 3)
     rep.assumptions = ["any statement containing a call, subscript, arithmetic or yield may raise (over-approximation)",
                        "`if <res> is not None:` guarding a release is infeasible-false once the resource is bound",
